@@ -452,7 +452,7 @@ impl Global {
         let known = &self.known;
         let id = self.id;
         let strict = self.strict;
-        let max_shrink = self.tier.pick(4000u32, 20000u32);
+        let max_shrink = self.tier.pick(1500u32, 6000u32);
         std::thread::scope(|sc| {
             for w in 0..WORKERS {
                 let seed = self.stage_seed(stage, w);
